@@ -34,6 +34,7 @@ def c15(case, obs):
     view = View()
     bundling = False          # True / False / None (unknown: a create failed for a reason other than "already bundling")
     reads, name = [], None
+    opened = False
     last_seq = {}             # stream name -> last seq_num used (None = unknown)
     seen_names = set()        # stream names described in the current run
     for i, (op, o) in enumerate(zip(case["ops"], obs)):
@@ -74,8 +75,11 @@ def c15(case, obs):
                     why = _check_bundle_event(devs, view, docs, reads, name)
                     if why:
                         return where + why
-                elif events:
-                    return where + "failed save emitted an event"
+                else:
+                    if events:
+                        return where + "failed save emitted an event"
+                    if opened and _valid_bundle(devs, view, reads, name):
+                        return where + "a well-formed bundle %s for stream %d was rejected (%s)" % ([x for x, _ in reads], name, res)
                 bundling = False
             else:
                 bundling = False if res == "ok" else None
@@ -85,6 +89,10 @@ def c15(case, obs):
                     return where + "%s inside an open bundle was not rejected (%s)" % (k, res)
         elif k == "rewind":
             bundling = False
+        elif k == "open_run" and res == "ok":
+            opened = True
+        elif k == "close_run" and res == "ok":
+            opened = False
         # numbering: drop / empty save must not consume a seq_num, every event continues its stream's numbering
         if k in ("rewind", "open_run"):
             last_seq.clear()
@@ -112,6 +120,38 @@ def c15(case, obs):
                 if d[0] == "sdatum" and view.name_of(d[3]) is not None:
                     last_seq[view.name_of(d[3])] = None
     return None
+
+
+def _valid_bundle(devs, view, reads, name):
+    """A bundle the bundler has no reason to refuse: readable objects with pairwise disjoint keys and no stream
+    keys, readings exactly as described, no asset documents, and a stream that is new or was described for
+    exactly this object set."""
+    objs = [x for x, _ in reads]
+    if len(set(objs)) != len(objs):
+        return False
+    allkeys = []
+    for x, r in reads:
+        dev = devs[x]
+        if "readable" not in dev["caps"] or any(c in dev["caps"] for c in ("wsa", "wea")):
+            return False
+        if any(e == "stream" for _, e in dev.get("describe", [])):
+            return False
+        if sorted(kk for kk, _ in r) != sorted(_keys(dev)):
+            return False
+        allkeys += sorted(_keys(dev))
+    if len(set(allkeys)) != len(allkeys):
+        return False
+    latest = None
+    for u in view.order:
+        if view.descr[u][3] == name:
+            latest = view.descr[u]
+    if name == 0:
+        return False
+    if latest is not None and sorted(x[0] for x in latest[5]) != sorted(objs):
+        return False
+    if latest is None and any(d[3] == name for d in view.descr.values()):
+        return False
+    return True
 
 
 def _check_bundle_event(devs, view, docs, reads, name):
